@@ -241,7 +241,9 @@ class StructDefine(object):
                 if len(f_count)==len(f_name)==1:
                     if len(self.fields)>0:
                         prev = self.fields[-1]
-                        if isinstance(prev,(BitField,BitFieldEx)):
+                        if (isinstance(prev,(BitField,BitFieldEx))
+                            and prev.typename==f.typename
+                            and prev.order==f.order):
                             try:
                                 prev.concat(f)
                             except TypeError:
